@@ -245,6 +245,9 @@ type plan struct {
 	Text   string // result text / error text
 	Bytes  int
 	ViaRaw bool // issued through the transport-level hook instead of Client.CallTool
+	// slow-handler scenarios (slow.go): the handler also pauses before it returns; Scenario names the case in failing inputs
+	TailPause time.Duration
+	Scenario  string
 }
 
 var burstSizes = []int{0, 0, 1, 1, 1, 2, 2, 3, 5, 8, 10, 25, 50, 100, 200}
